@@ -2749,6 +2749,25 @@ theorem fit_no_raise (S : Schema) (hdet : detB S = true) (hfill : S.fillersOKB =
   fit_no_raise_while S hdet hfill hwrap hlab hts hcl doc f t sl hv hattrs htop hft ht
     (termGuard_of_stable S sl hwf hst) hg (unplacedWfWhile_of_stable S doc f t sl hwf hst)
 
+/-- **`fit_raises_only_at_sites`** — the converse direction, for every request on a valid document: when `replace_step` raises,
+    the run of the Fitter reaches a state, with something left to place, in which the unplaced slice is not well-formed or
+    does not satisfy a site condition for its open depths — there are no other places where it raises.  Stated with
+    reachability (`FitReach`) and with the evaluator `requestBadState` (PM/FitRaiseGuard.lean: the first such state of the run,
+    as the driver reports it for every request on which the real code raised — op `fitRaise`, counter "first failing
+    condition"). -/
+theorem fit_raises_only_at_sites (S : Schema) (hdet : detB S = true) (hfill : S.fillersOKB = true) (hwrap : S.wrapOKB = true)
+    (hlab : S.labelsOKB = true) (hts : textStableC S = true) (hcl : S.closableB = true) (doc : Node) (f t : Nat)
+    (sl : Slice) (hv : C01.Valid S doc) (hattrs : S.nodeAttrsOK doc = true)
+    (htop : S.isTextblockO (S.tyOf doc) = false) (hft : f ≤ t) (ht : t ≤ fsize doc.kids)
+    (h : replaceStep S doc f t sl = .error .raises) :
+    (∃ rf st0 st', doc.resolve f = some rf ∧ fitInit S rf sl = .ok st0 ∧ FitReach S st0 st' ∧
+      (st'.unplaced.size == 0) = false ∧ (st'.unplaced.wf = false ∨ st'.unplaced.sitesOk S = false)) ∧
+    (∃ w a b, requestBadState S doc f t sl = some (w, a, b) ∧ (w && a && b) = false) :=
+  ⟨replaceStep_raises_reach S (detS_of_detB S hdet) (fillersOK_of_B S hfill) (wrapOK_of_B S hwrap) (labelsOK_of_B S hlab)
+      (closable_of_B S hcl) (textStableP_of_C S hts) doc f t sl hv hattrs htop (by omega) ht h,
+   replaceStep_raises_bad S (detS_of_detB S hdet) (fillersOK_of_B S hfill) (wrapOK_of_B S hwrap) (labelsOK_of_B S hlab)
+      (closable_of_B S hcl) (textStableP_of_C S hts) doc f t sl hv hattrs htop (by omega) ht h⟩
+
 /-- **`openPrefixOk_of_cut`** — which ordinary slices satisfy the guard: **every slice cut from a valid document**
     (`src.slice a b`, any open depths), the document in normal form (no empty text nodes), provided its non-leaf nodes have
     *suffix-closed* content (`Schema.homogKids`; `Schema.suffixClosedB`: every edge of every state of the type's automaton is an
